@@ -274,3 +274,74 @@ Theorem dispatchF_calls_prefix beh f s inst k w :
   get_w s inst = Some w -> exists suf, chain w k = calls (snd (dispatchF beh (S f) s inst k)) ++ suf.
 Proof. intros H. rewrite dispatchF_unfold, H. apply dispatch_calls_prefix. Qed.
 
+
+(* ---- the fuel is not a restriction ---------------------------------------------------------------- *)
+
+(** no nesting ran out of fuel, at any depth *)
+Fixpoint complete_item (it : ditem) : bool :=
+  match it with
+  | DOutOfFuel => false
+  | DNest _ _ sub => forallb complete_item sub
+  | _ => true
+  end.
+Definition complete (items : list ditem) : bool := forallb complete_item items.
+
+Lemma complete_app a b : complete (a ++ b) = complete a && complete b.
+Proof. apply forallb_app. Qed.
+
+Section TwoDispatchers.
+Variable beh : nat -> nat -> dres * list reop.
+Variables disp1 disp2 : dstate -> nat -> kind -> dstate * list ditem.
+Hypothesis agree : forall s i k, complete (snd (disp1 s i k)) = true -> disp2 s i k = disp1 s i k.
+
+Lemma apply_reops_agree s ops :
+  complete (snd (apply_reops disp1 s ops)) = true -> apply_reops disp2 s ops = apply_reops disp1 s ops.
+Proof.
+  revert s. induction ops as [|o r IH]; intros s; simpl; [reflexivity|].
+  assert (Ho : complete (snd (apply_reop disp1 s o)) = true -> apply_reop disp2 s o = apply_reop disp1 s o).
+  { destruct o as [i k h|i k h|i k]; simpl; try reflexivity.
+    pose proof (agree s i k) as A. destruct (disp1 s i k) as [s1 sub]. simpl in *.
+    rewrite andb_true_r. intros C. rewrite (A C). reflexivity. }
+  destruct (apply_reop disp1 s o) as [s1 i1]. specialize (IH s1).
+  destruct (apply_reops disp1 s1 r) as [s2 i2]. simpl in *.
+  rewrite complete_app. intros C. apply andb_true_iff in C. destruct C as [C1 C2].
+  rewrite (Ho C1), (IH C2). reflexivity.
+Qed.
+
+Lemma run_chain_agree s snap inst k :
+  complete (snd (run_chain beh disp1 s snap inst k)) = true ->
+  run_chain beh disp2 s snap inst k = run_chain beh disp1 s snap inst k.
+Proof.
+  revert s. induction snap as [|h r IH]; intros s; simpl; [reflexivity|].
+  destruct (beh h (nth h (d_calls s) 0)) as [res ops].
+  pose proof (apply_reops_agree (bump s h) ops) as A.
+  destruct (apply_reops disp1 (bump s h) ops) as [s1 i1]. simpl in A.
+  destruct (interruptible k && match res with RInterrupt => true | _ => false end).
+  - simpl. intros C. change (complete i1 = true) in C. rewrite (A C). reflexivity.
+  - specialize (IH s1). destruct (run_chain beh disp1 s1 r inst k) as [s2 i2]. simpl in *.
+    intros C. change (complete (i1 ++ i2) = true) in C. rewrite complete_app in C. apply andb_true_iff in C. destruct C as [C1 C2].
+    rewrite (A C1), (IH C2). reflexivity.
+Qed.
+
+End TwoDispatchers.
+
+(** once no nesting ran out of fuel, more fuel gives the same result: what the dispatcher does is the value of
+    [dispatchF] at any sufficient fuel *)
+Theorem fuel_irrelevant beh f :
+  forall s inst k, complete (snd (dispatchF beh f s inst k)) = true ->
+    dispatchF beh (S f) s inst k = dispatchF beh f s inst k.
+Proof.
+  induction f as [|f IH]; intros s inst k C; [discriminate C|].
+  rewrite (dispatchF_unfold beh (S f)), (dispatchF_unfold beh f) in *.
+  destruct (get_w s inst) as [w|]; [|reflexivity].
+  apply run_chain_agree; [exact IH|exact C].
+Qed.
+
+Theorem fuel_irrelevant_plus beh f n :
+  forall s inst k, complete (snd (dispatchF beh f s inst k)) = true ->
+    dispatchF beh (n + f) s inst k = dispatchF beh f s inst k.
+Proof.
+  induction n as [|n IH]; intros s inst k C; [reflexivity|].
+  change (S n + f) with (S (n + f)). rewrite fuel_irrelevant; [apply IH; exact C|].
+  rewrite IH; exact C.
+Qed.
